@@ -21,6 +21,7 @@ whether it "was actually replaced".
 
 from __future__ import annotations
 
+import contextlib
 import gc
 import logging
 import os
@@ -82,7 +83,15 @@ RULE = (
     "enforced RLIMIT_NOFILE: EMFILE from open/os.open/scandir/listdir/mmap/... alike, path-based calls keep working), so "
     "cleanup code that itself needs a descriptor is exercised. Before the enumeration (which the time budget cuts "
     "after a few scenarios per shard) the undisturbed save of every planned scenario is run and judged, together with "
-    "its client-state variants, five sampled single exception positions and two sampled starting points of descriptor exhaustion. "
+    "its client-state variants, five sampled single exception positions and two sampled starting points of descriptor exhaustion, "
+    "every effect class (temp creation, open of the data file, mode copy, rename) failing on EVERY attempt from its first call on "
+    "with each error class of a table (rename: EACCES, EPERM, EBUSY, EXDEV, ENOSPC; injected OSErrors are instances of the "
+    "subclass the interpreter raises for the errno, e.g. PermissionError), and call sequences on ONE model object in ONE directory: "
+    "two or three saves in a row (undisturbed; another worker count; a sampled fault in the first, the second or the first of "
+    "three), every save judged against the directory, destination bytes and backing files as the previous save left them - after a "
+    "save that replaced the data file the model still holds the invalidated tensors, so the next save fails by itself, with no "
+    "injected fault, wherever the code notices. A save that returns although an effect on the data file failed before any rename "
+    "returned must have installed the complete new bytes. "
     "Non-trivial: a destination data file pre-exists, at least one tensor is written, and at least one "
     "death and one exception position were exercised; distinct by scenario description."
 )
@@ -95,6 +104,8 @@ ASSUMPTIONS = [
     "failures of the cleanup calls and injected tensor/callback/source-open faults that fire after the rename returned (tensors below the threshold are evaluated while the model file is serialised) are judged on destination bytes only, and so is descriptor exhaustion when the rename had returned before the save ended (what failed for want of a descriptor came after the data file was in place); a failing file-system effect on the data file itself (temp creation, open/write/close, mode copy) is judged strictly wherever the code placed it, also behind the rename; a save that raises although no injected fault fired (the exception is its own reaction to the scenario: a tensor whose memory map the client still holds cannot be released, a name is too long) is judged strictly wherever the code let it happen",
     "'its backing file was actually replaced' is decided per tensor from the inode and content behind the name the tensor itself reads through (links followed), before and after the save",
     "when the undisturbed reference save returns but leaves the regular file behind the destination unchanged, the complete new bytes are taken to be the concatenation of the generated payloads (report-only counter) and the scenario is still judged",
+    "a save that RETURNS normally after an injected failure of a file-system effect on the data file (temp creation, open/write/close, mode copy, rename) that fired before any rename returned is read as claiming success: of the two legal contents only the complete new bytes are then accepted (previous bytes under a model file describing the new layout are a damaged data file for every reader); without an injected failure 'returned but still old' stays report-only",
+    "in a sequence of saves of one model object the previous bytes / directory listing / backing inodes are re-observed before every save; the complete new bytes are known (the reference save's) only while no tensor of the model is invalid or reads from a file an earlier save of the sequence replaced - afterwards a later save is judged on 'exactly as before this save', leftovers and tensor validity only, and tensors whose file an earlier save replaced are not judged again",
 ]
 
 logging.getLogger("onnx_ir").setLevel(logging.CRITICAL)
@@ -195,6 +206,14 @@ def plan(tier: str) -> dict:
             "undisturbed_pass|held_array_cases|array of ext_dest/written": 50 if quick else 600,
             "undisturbed_pass|held_array_cases|save raised|BufferError": 60 if quick else 800,
             "undisturbed_pass|sampled_exception_positions": 300 if quick else 4000,
+            # every effect failing on every attempt, by error class (PermissionError family on the rename included)
+            "undisturbed_pass|every_attempt_fault_cases": 500 if quick else 7000,
+            "undisturbed_pass|exc_fired|every-attempt|replace|EACCES": 50 if quick else 700,
+            "undisturbed_pass|exc_fired|every-attempt|replace|EBUSY": 50 if quick else 700,
+            # the same model object saved again: judged against what the previous save left
+            "undisturbed_pass|sequence_steps|later saves judged": 500 if quick else 7000,
+            "undisturbed_pass|sequence_steps|later single-file save after the data file was replaced: "
+            "raised by itself": 100 if quick else 1500,
             # symlink destinations that are not a single link straight to the file
             "undisturbed_pass|scenarios|symlink|chain of links, single file, "
             "written tensor reads the final file by its own name": 3 if quick else 40,
@@ -554,9 +573,12 @@ def _lazy_func(plan_ref, payload, np_dt, name):
 # ---------------------------------------------------------------------------------------------
 # running one save
 # ---------------------------------------------------------------------------------------------
-def run_save(sc: Scenario, plan: F.Plan, mon_mode: str = "off", target: int = -1):
-    """One ``ir.save`` of the scenario under the wrappers.  Returns (exception or None, LINE events)."""
+def run_save(sc: Scenario, plan: F.Plan, mon_mode: str = "off", target: int = -1, options: dict | None = None):
+    """One ``ir.save`` of the scenario under the wrappers.  Returns (exception or None, LINE events).
+    ``options`` overrides write options of the scenario for this call (``workers``)."""
     spec = sc.spec
+    if options and "workers" in options:
+        spec = dict(spec, workers=options["workers"])
     sc.plan_ref[0] = plan
     callback = None
     if spec["callback"]:
@@ -688,6 +710,10 @@ class Judge:
         self.old = b""
         self.found: list[tuple[str, str, dict]] = []   # (signature, message, replay)
         self.outcomes: Counter[str] = Counter()
+        # later saves of a call sequence on one model object (``run_sequence_case``): what the complete new
+        # bytes would be is not known to the harness once a tensor reads from a file an earlier save replaced
+        self.new_unknown = False
+        self.context = ""
 
     def fresh_dir(self) -> str:
         self.runs += 1
@@ -707,7 +733,7 @@ class Judge:
             f"dest={s.get('dest_family', 'short')}[{_brief(names(s)['dest'])}] sharded={s['sharded']} "
             f"max_shard={s['max_shard']} collide={_brief(s['collide']) if s.get('collide') else None}"
             f"({s.get('collide_kind')}) workers={s['workers']} threshold={s['threshold']} callback={s['callback']} "
-            f"opaque_file={s['opaque']} tensors=[{tens}]"
+            f"opaque_file={s['opaque']} tensors=[{tens}]" + self.context
         )
 
     # -- checks after an in-process run -----------------------------------------------------------
@@ -726,13 +752,18 @@ class Judge:
         return replaced
 
     def check_tensors(self, sc: Scenario, replaced: dict, *, where: str, fault_tag: str, replay: dict,
-                      converse: bool) -> None:
+                      converse: bool, stale: frozenset = frozenset()) -> None:
         """Every external tensor of the model against the state of its backing file: invalid only if
         the file was actually replaced; valid and not replaced => reads exactly the old bytes;
         ``converse`` (undisturbed / absorbed saves only): replaced => invalidated."""
         ctx = self.ctx
         for e in sc.ext:
             t = e["tensor"]
+            if e["name"] in stale:
+                # its backing file was replaced by an EARLIER save of the sequence: whether it is valid
+                # and what it reads now is no longer this save's doing
+                ctx.count("tensor_checks|skipped: backing file replaced by an earlier save of the sequence")
+                continue
             # "its backing file was actually replaced" is read off the name the tensor itself reads
             # through (links followed): inode or content behind that name changed
             was_replaced = replaced.get(e.get("loc") or e["backing"], False)
@@ -825,29 +856,50 @@ class Judge:
         return allowed
 
     # -- success --------------------------------------------------------------------------------
-    def judge_success(self, sc: Scenario, s1: dict, before_ino: dict, *, where: str, fault_tag: str, replay: dict) -> str:
+    def judge_success(self, sc: Scenario, s1: dict, before_ino: dict, *, where: str, fault_tag: str, replay: dict,
+                      failed_effects: list | None = None, stale: frozenset = frozenset()) -> str:
+        """``failed_effects``: injected failures of file-system effects on the data file (temp creation,
+        open / write, mode copy, rename) that fired before any rename returned, although the save returned."""
         spec = self.spec
         outcome = "n/a"
         if not spec["sharded"] and spec["mode"] != "absent":
             outcome, detail = dest_state(spec, self.dest_rel, self.s0, s1, self.old, self.new)
             if outcome not in ("old", "new"):
-                self.violate(f"{where}|{fault_tag}|dest-{outcome}",
-                             f"after a save that returned normally the destination is neither old nor new: {detail}. "
-                             f"Scenario: {self.describe()}", replay)
+                if self.new_unknown:
+                    self.ctx.count("report_only_later_save_of_sequence_returned|new bytes not known to the harness")
+                else:
+                    self.violate(f"{where}|{fault_tag}|dest-{outcome}",
+                                 f"after a save that returned normally the destination is neither old nor new: {detail}. "
+                                 f"Scenario: {self.describe()}", replay)
+            elif outcome == "old" and failed_effects and not self.new_unknown and self.new != self.old:
+                # An effect of producing / installing the new data file FAILED and the save returned all
+                # the same: "holds either exactly its previous bytes or exactly the complete new bytes"
+                # leaves, for a save that reports success, only the complete new bytes - previous bytes
+                # under a model file that describes the new layout are a damaged data file for every reader.
+                self.ctx.count("success_after_failed_effect|VIOLATION destination still old")
+                self.violate(
+                    f"{where}|{fault_tag}|save-returned-but-new-data-file-not-installed",
+                    f"{' and '.join(failed_effects)} failed, the save returned normally all the same, and the "
+                    f"destination still holds its previous bytes instead of the complete new ones: {detail}. "
+                    f"Scenario: {self.describe()}", replay)
             elif outcome == "old":
-                self.ctx.count("report_only_success_but_dest_old")
+                self.ctx.count("report_only_later_save_of_sequence_returned|destination as before" if self.new_unknown
+                               else "report_only_success_but_dest_old" if self.new != self.old
+                               else "success|the complete new bytes equal the previous ones")
+            elif failed_effects:
+                self.ctx.count("success_after_failed_effect|destination holds the complete new bytes")
         skip = set() if spec["sharded"] else {self.dest_rel}
         self.check_preexisting(s1, where=where, fault_tag=fault_tag, replay=replay, skip=skip)
         left = new_entries(self.s0, s1, self.allowed_new())
         if left:
             self.ctx.count("report_only_leftover_after_success", len(left))
         replaced = self.backing_state(sc, before_ino)
-        self.check_tensors(sc, replaced, where=where, fault_tag=fault_tag, replay=replay, converse=True)
+        self.check_tensors(sc, replaced, where=where, fault_tag=fault_tag, replay=replay, converse=True, stale=stale)
         return outcome
 
     # -- exception ------------------------------------------------------------------------------
     def judge_exception(self, sc: Scenario, s1: dict, before_ino: dict, exc: BaseException, plan: F.Plan,
-                        *, fault_tag: str, replay: dict) -> str:
+                        *, fault_tag: str, replay: dict, stale: frozenset = frozenset()) -> str:
         """Save raised.  strict = the failure happened while producing the new data file (before the
         first os.replace returned) and no cleanup call was made to fail."""
         spec = self.spec
@@ -882,7 +934,8 @@ class Judge:
             if left:
                 ctx.count("report_only_sharded_outputs_or_temp_left_after_exception", len(left))
             replaced = self.backing_state(sc, before_ino)
-            self.check_tensors(sc, replaced, where=where, fault_tag=fault_tag, replay=replay, converse=False)
+            self.check_tensors(sc, replaced, where=where, fault_tag=fault_tag, replay=replay, converse=False,
+                               stale=stale)
             return "sharded"
         dest_ok = True
         if spec["mode"] != "absent":
@@ -896,10 +949,13 @@ class Judge:
                         f"does not hold its previous bytes: {detail}. Scenario: {self.describe()}", replay)
             elif outcome not in ("old", "new"):
                 dest_ok = False
-                self.violate(
-                    f"{where}|{fault_tag}|dest-{outcome}",
-                    f"save raised {type(exc).__name__}({exc}); the destination is neither old nor new: {detail}. "
-                    f"Scenario: {self.describe()}", replay)
+                if self.new_unknown:
+                    ctx.count("report_only_later_save_of_sequence_raised_late|new bytes not known to the harness")
+                else:
+                    self.violate(
+                        f"{where}|{fault_tag}|dest-{outcome}",
+                        f"save raised {type(exc).__name__}({exc}); the destination is neither old nor new: {detail}. "
+                        f"Scenario: {self.describe()}", replay)
         elif strict and names(spec)["dest"] in s1:
             ctx.count("report_only_absent_dest_created_by_failed_save")
         self.check_preexisting(s1, where=where, fault_tag=fault_tag, replay=replay, skip={self.dest_rel})
@@ -916,7 +972,7 @@ class Judge:
             if dest_ok:
                 replaced = self.backing_state(sc, before_ino)
                 self.check_tensors(sc, replaced, where=where, fault_tag=fault_tag, replay=replay,
-                                   converse=False)
+                                   converse=False, stale=stale)
         else:
             ctx.count("exc_judged|bytes-only(cleanup or after replace)")
             left = new_entries(self.s0, s1, {MODEL})
@@ -926,7 +982,7 @@ class Judge:
                 replaced = self.backing_state(sc, before_ino)
                 # only the 'only when' direction is judged here
                 self.check_tensors(sc, replaced, where=where, fault_tag=fault_tag, replay=replay,
-                                   converse=False)
+                                   converse=False, stale=stale)
         return outcome
 
     # -- death ----------------------------------------------------------------------------------
@@ -962,7 +1018,7 @@ def _before_ino(sc: Scenario) -> dict:
     return out
 
 
-def _fault_tag(site: str, k: int, how: str, single_file: bool) -> str:
+def _fault_tag(site: str, k: int, how: str, single_file: bool, exc: list | None = None) -> str:
     """Mechanism-level name of a fault position."""
     # effect classes, not functions: 'mode-copy' is shutil.copymode / copystat / os.chmod / fchmod alike,
     # 'rename' os.replace / rename / shutil.move, 'temp-creation' tempfile.mkdtemp / mkstemp,
@@ -979,7 +1035,15 @@ def _fault_tag(site: str, k: int, how: str, single_file: bool) -> str:
         nice += ":after-half"
     if how == "exhaust":
         nice = "descriptors-exhausted@" + nice
+    if how == "raise_always":
+        # the effect fails on EVERY attempt from this call on; the error class is part of the mechanism
+        # (code may react to PermissionError / EBUSY / EXDEV differently)
+        nice += ":every-attempt" + (f"({exc[1]})" if exc and len(exc) > 1 else "")
     return nice
+
+
+def _faults_tag(faults: list, single_file: bool) -> str:
+    return "+".join(_fault_tag(s_, k_, a_[0], single_file, a_[1] if len(a_) > 1 else None) for s_, k_, a_ in faults)
 
 
 # file-system effects on the data file being produced ("temp creation, each tensor write incl. mid-tensor,
@@ -1062,6 +1126,27 @@ def exception_positions(counts: Counter, rng, all_variants: bool) -> list[list]:
                 chosen = excs if all_variants else [excs[rng.randrange(len(excs))]]
                 for ex in chosen:
                     plans.append([[site, k, [how, ex]]])
+    return plans
+
+
+# persistent failures: the effect fails the same way on every attempt (an immutable or locked destination,
+# a read-only / full directory, a cross-device destination): retrying cannot help, falling back may
+_STICKY_ERRNOS = {
+    "replace": ["EACCES", "EPERM", "EBUSY", "EXDEV", "ENOSPC"],
+    "copymode": ["EPERM", "EACCES"],
+    "mkdtemp": ["EACCES", "ENOSPC"],
+    "open": ["EACCES", "EMFILE"],
+}
+
+
+def sticky_positions(counts: Counter) -> list[list]:
+    """Fault plans in which a file-system effect of the save fails on EVERY attempt from its first call
+    on, for every error class of the table (no random choice: the space is small)."""
+    plans = []
+    for site, errnos in _STICKY_ERRNOS.items():
+        if counts.get(site, 0):
+            for e in errnos:
+                plans.append([[site, 1, ["raise_always", ["OSError", e]]]])
     return plans
 
 
@@ -1244,9 +1329,7 @@ def run_exception_case(judge: Judge, spec: dict, faults: list) -> tuple[str, boo
     exc, _ = run_save(sc, plan, "off")
     s1 = snapshot(rundir)
     site, k, action = faults[0]
-    tag = _fault_tag(site, k, action[0], not spec["sharded"])
-    if len(faults) > 1:
-        tag += "+" + "+".join(_fault_tag(s, kk, a[0], not spec["sharded"]) for s, kk, a in faults[1:])
+    tag = _faults_tag(faults, not spec["sharded"])
     replay = {"kind": "exception", "spec": spec, "faults": faults}
     fired = bool(plan.fired)
     if fired:
@@ -1255,6 +1338,10 @@ def run_exception_case(judge: Judge, spec: dict, faults: list) -> tuple[str, boo
         if action[0] == "exhaust":
             ctx.count("exc_fired|descriptors-exhausted")
             ctx.count(f"exc_fired|descriptors-exhausted|from {_fault_tag(site, 0, 'raise', False)}")
+        elif action[0] == "raise_always":
+            ctx.count(f"exc_fired|every-attempt|{group}")
+            ctx.count(f"exc_fired|every-attempt|{group}|{action[1][1]}")
+            ctx.count(f"exc_fired|every-attempt|{group}|attempts made by the save", plan.sticky_refused.get(site, 0))
         else:
             ctx.count(f"exc_fired|{group}")
     else:
@@ -1263,15 +1350,28 @@ def run_exception_case(judge: Judge, spec: dict, faults: list) -> tuple[str, boo
         ctx.count(f"effect_reached|{via}", c)
     if exc is None:
         ctx.count("exc_absorbed_or_not_reached(save returned)")
-        outcome = judge.judge_success(sc, s1, before, where="success-after-fault", fault_tag=tag, replay=replay)
+        outcome = judge.judge_success(sc, s1, before, where="success-after-fault", fault_tag=tag, replay=replay,
+                                      failed_effects=_failed_effects(plan, spec))
     else:
         ctx.count(f"exc_raised|{type(exc).__name__}")
         outcome = judge.judge_exception(sc, s1, before, exc, plan, fault_tag=tag, replay=replay)
     ctx.count(f"exc_outcome|save {'returned' if exc is None else 'raised'}|destination {outcome}")
+    if action[0] == "raise_always" and fired:
+        ctx.count(f"exc_outcome|every-attempt {site}|save {'returned' if exc is None else 'raised'}|destination {outcome}")
     returned = exc is None
     del exc, sc
     shutil.rmtree(rundir, ignore_errors=True)
     return outcome, fired, returned
+
+
+def _failed_effects(plan: F.Plan, spec: dict) -> list[str]:
+    """Injected failures of file-system effects on the data file (producing it, or renaming it onto the
+    destination) that fired before any rename had returned - by the harness's own record."""
+    out = []
+    for (site_, k_, how_, before) in plan.fired:
+        if before and how_ != "exhaust" and (site_ in PRODUCING_SITES or site_ == "replace"):
+            out.append(_fault_tag(site_, k_, how_, not spec["sharded"], plan.sticky.get(site_)))
+    return out
 
 
 def held_variants(spec: dict) -> list[list]:
@@ -1305,7 +1405,7 @@ def run_held_case(judge: Judge, spec: dict, held: list, faults: list | None = No
     s1 = snapshot(rundir)
     tag = "held-array(" + ",".join(sorted(set(classes))) + ")"
     if faults:
-        tag += "+" + "+".join(_fault_tag(s_, k_, a_[0], not spec["sharded"]) for s_, k_, a_ in faults)
+        tag += "+" + _faults_tag(faults, not spec["sharded"])
     replay = {"kind": "exception", "spec": spec, "faults": list(faults or []), "held": held}
     ctx.count("held_array_cases|total")
     for c in sorted(set(classes)):
@@ -1323,6 +1423,110 @@ def run_held_case(judge: Judge, spec: dict, held: list, faults: list | None = No
     return outcome
 
 
+def sequence_variants(spec: dict, counts: Counter, rng) -> list[list]:
+    """Call sequences: two or three saves of the SAME model object into the same directory, every save
+    judged against the state the previous one left.  After a save that replaced the data file the
+    model still holds the (now invalidated) external tensors that read from it, so the next save fails
+    by itself - an exception from a tensor with no injected fault, at whatever point the code notices;
+    after a save that failed cleanly the next one has to behave like the first.  One step = the faults
+    injected into that save (none = undisturbed) and, optionally, another worker count."""
+    clean: dict = {"faults": []}
+    other_writer = {"faults": [], "workers": (None if (spec["workers"] or 1) > 1 else 2)}
+    out = [[clean, clean], [clean, clean, clean], [clean, other_writer]]
+    singles = exception_positions(counts, rng, False)
+    if singles:
+        first, second, third = (rng.choice(singles) for _ in range(3))
+        out.append([{"faults": first}, clean])
+        out.append([clean, {"faults": second}])
+        out.append([{"faults": third}, other_writer, clean])
+    return out
+
+
+def _sequence_tag(i: int, replaced_earlier: bool, faults: list, single_file: bool) -> str:
+    """Mechanism of a later save of a sequence: what the earlier saves did to the model's data file (not
+    how many there were or how they ended) and the faults that actually fired in this save."""
+    tag = _faults_tag(faults, single_file) if faults else "no-fault"
+    if i == 0:
+        return tag
+    state = "an earlier save replaced its data file" if replaced_earlier else "earlier saves replaced nothing"
+    return f"later-save-of-same-model({state})" + ("" if not faults else "+" + tag)
+
+
+def run_sequence_case(judge: Judge, spec: dict, steps: list) -> list[str]:
+    """Saves the model of ONE materialized scenario ``len(steps)`` times in a row.  Every save is judged
+    like a single one, relative to the directory, the destination bytes and the backing files as the
+    previous save left them: raised while producing the data file => destination as before this save,
+    nothing left behind, tensors whose file this save did not replace still valid; returned => the
+    destination is the previous or the complete new content.  The complete new bytes are known to
+    the harness (the reference save's) as long as no tensor of the model reads from a file an earlier save
+    of the sequence replaced; afterwards only 'as before' can be recognised."""
+    import copy
+
+    ctx = judge.ctx
+    rundir = judge.fresh_dir()
+    sc = materialize(spec, rundir)
+    single = not spec["sharded"]
+    stale: set[str] = set()
+    history: list[str] = []
+    ctx.count("sequence_cases|total")
+    ctx.count(f"sequence_cases|{len(steps)} saves")
+    for i, step in enumerate(steps):
+        faults = step.get("faults") or []
+        s_prev = snapshot(rundir)
+        before = _before_ino(sc)
+        j = copy.copy(judge)            # shares ctx and the list of violations found
+        j.s0 = s_prev
+        if i > 0:
+            j.context = f" [save #{i + 1} of the same model object; earlier saves: {', '.join(history)}]"
+        if single:
+            entry = s_prev.get(judge.dest_rel)
+            if entry is not None and entry[0] == "f":
+                j.old = entry[1]
+                if spec["mode"] == "absent":
+                    # an earlier save of the sequence created it: from now on a data file that already exists
+                    j.spec = dict(spec, mode="plain")
+                    j.context += " [destination created by an earlier save of the sequence]"
+            elif spec["mode"] != "absent":
+                break                   # destination vanished: already reported by the step that did it
+        if stale or any(not e["tensor"].valid() for e in sc.ext):
+            j.new, j.new_unknown = None, True
+        plan = F.Plan(faults)
+        options = {"workers": step["workers"]} if "workers" in step else None
+        exc, _ = run_save(sc, plan, "off", options=options)
+        s1 = snapshot(rundir)
+        fired_here = [f for f in faults if any(s_ == f[0] and k_ == f[1] for (s_, k_, _h, _b) in plan.fired)]
+        tag = _sequence_tag(i, bool(stale), fired_here if i > 0 else faults, single)
+        replay = {"kind": "exception", "spec": spec, "faults": [], "sequence": steps[: i + 1]}
+        state = ("tensors read a file replaced earlier" if j.new_unknown else "all tensors intact")
+        if exc is None:
+            outcome = j.judge_success(sc, s1, before, where="success-after-fault" if plan.fired else "success",
+                                      fault_tag=tag, replay=replay, failed_effects=_failed_effects(plan, spec),
+                                      stale=frozenset(stale))
+            result = "returned"
+        else:
+            outcome = j.judge_exception(sc, s1, before, exc, plan, fault_tag=tag, replay=replay, stale=frozenset(stale))
+            result = "raised"
+            if not plan.fired:
+                ctx.count(f"sequence_steps|save #{min(i + 1, 2)}{'+' if i > 1 else ''} raised by itself|{type(exc).__name__}")
+                if stale and single:
+                    ctx.count("sequence_steps|later single-file save after the data file was replaced: raised by itself")
+        if i > 0:
+            ctx.count("sequence_steps|later saves judged")
+            ctx.count(f"sequence_steps|later save, {state}|{'fault injected' if faults else 'no fault'}|"
+                      f"{result}|destination {outcome}")
+        for rel, was in j.backing_state(sc, before).items():
+            if was:
+                stale.update(e["name"] for e in sc.ext if (e.get("loc") or e["backing"]) == rel)
+        history.append(result)
+        del exc
+    for e in sc.ext:
+        with contextlib.suppress(Exception):
+            e["tensor"].release()
+    del sc
+    shutil.rmtree(rundir, ignore_errors=True)
+    return history
+
+
 def run_death_case(judge: Judge, spec: dict, death: list) -> tuple[str, int]:
     ctx = judge.ctx
     rundir = judge.fresh_dir()
@@ -1334,7 +1538,7 @@ def run_death_case(judge: Judge, spec: dict, death: list) -> tuple[str, int]:
         site, k, action = death[1]
         tag = "mid-write:" + _fault_tag(site, k, "die", False)
     if len(death) > 2 and death[2]:
-        tag = "+".join(_fault_tag(s_, k_, a_[0], not spec["sharded"]) for s_, k_, a_ in death[2]) + "+" + tag
+        tag = _faults_tag(death[2], not spec["sharded"]) + "+" + tag
     replay = {"kind": "death", "spec": spec, "death": death}
     outcome = judge.judge_death(s1, point_tag=tag, replay=replay)
     if code == 0:
@@ -1608,6 +1812,10 @@ def evaluate_replay(ctx_like, replay: dict, base: str) -> list[tuple[str, str, d
             judge.found = []
             run_held_case(judge, spec, replay["held"], replay.get("faults") or None)
             return judge.found
+        if replay.get("sequence"):
+            judge.found = []
+            run_sequence_case(judge, spec, replay["sequence"])
+            return judge.found
         if not replay.get("faults"):
             return found_in_recording
         judge.found = []
@@ -1656,6 +1864,16 @@ def shrink_witness(replay: dict, signature: str, base: str, max_tries: int = 60)
                         for t in c["spec"]["tensors"]:
                             if t.get("via") == "hop":
                                 t["via"] = "direct"
+                    yield c
+        if len(cur.get("sequence") or []) > 1:
+            for j in range(len(cur["sequence"]) - 1):
+                c = copy.deepcopy(cur)
+                del c["sequence"][j]
+                yield c
+            for j, step in enumerate(cur["sequence"]):
+                if step.get("faults") or "workers" in step:
+                    c = copy.deepcopy(cur)
+                    c["sequence"][j] = {"faults": []}
                     yield c
         if len(cur.get("held") or []) > 1:
             for j in range(len(cur["held"])):
@@ -1760,6 +1978,14 @@ def run(ctx) -> None:
                 for faults in ex:
                     run_exception_case(judge, spec, faults)
                     ctx.count("undisturbed_pass|sampled_exhaustion_positions")
+                # ... every file-system effect of the save failing on EVERY attempt, by error class
+                for faults in sticky_positions(rec[0]):
+                    run_exception_case(judge, spec, faults)
+                    ctx.count("undisturbed_pass|every_attempt_fault_cases")
+                # ... and call sequences: the same model object saved two or three times in a row
+                srng = ctx.rng(case, salt="pass1-sequences")
+                for steps in sequence_variants(spec, rec[0], srng):
+                    run_sequence_case(judge, spec, steps)
             shutil.rmtree(cdir, ignore_errors=True)
             ctx.count("undisturbed_pass|scenarios")
             ctx.count("undisturbed_pass|scenarios|" + ("sharded" if spec["sharded"] else "single-file"))
@@ -1848,7 +2074,8 @@ def _describe_replay(replay: dict) -> str:
             f"sharded={spec['sharded']} workers={spec['workers']} threshold={spec['threshold']} "
             f"callback={spec['callback']} opaque_file={spec['opaque']} tensors=[{tens}] "
             f"faults={replay.get('faults')} death={replay.get('death')}"
-            + (f" client holds arrays of {replay['held']}" if replay.get("held") else ""))
+            + (f" client holds arrays of {replay['held']}" if replay.get("held") else "")
+            + (f" saves of the same model object in a row: {replay['sequence']}" if replay.get("sequence") else ""))
 
 
 def replay(replay_data, ctx) -> None:
